@@ -101,6 +101,7 @@ func (s *scope) ID() string {
 
 // Get resolves a service in this scope
 func (s *scope) Get(serviceType reflect.Type) (any, error) {
+	verifGate("R_check", s)
 	if atomic.LoadInt32(&s.disposed) != 0 {
 		return nil, ErrScopeDisposed
 	}
@@ -115,6 +116,7 @@ func (s *scope) Get(serviceType reflect.Type) (any, error) {
 
 // GetKeyed resolves a keyed service in this scope
 func (s *scope) GetKeyed(serviceType reflect.Type, serviceKey any) (any, error) {
+	verifGate("R_check", s)
 	if atomic.LoadInt32(&s.disposed) != 0 {
 		return nil, ErrScopeDisposed
 	}
@@ -133,6 +135,7 @@ func (s *scope) GetKeyed(serviceType reflect.Type, serviceKey any) (any, error) 
 
 // GetGroup resolves all services in a group
 func (s *scope) GetGroup(serviceType reflect.Type, group string) ([]any, error) {
+	verifGate("R_check", s)
 	if atomic.LoadInt32(&s.disposed) != 0 {
 		return nil, ErrScopeDisposed
 	}
@@ -174,6 +177,7 @@ func (s *scope) GetGroup(serviceType reflect.Type, group string) ([]any, error) 
 
 // CreateScope creates a child scope
 func (s *scope) CreateScope(ctx context.Context) (Scope, error) {
+	verifGate("K_check", s)
 	if atomic.LoadInt32(&s.disposed) != 0 {
 		return nil, ErrScopeDisposed
 	}
@@ -189,23 +193,28 @@ func (s *scope) CreateScope(ctx context.Context) (Scope, error) {
 	}
 
 	// Track child
+	verifGate("K_addChild", s, child)
 	s.childrenMu.Lock()
 	s.children[child] = struct{}{}
 	s.childrenMu.Unlock()
 
 	// Track in provider
+	verifGate("K_track", s, child)
 	s.rootProvider.scopesMu.Lock()
 	s.rootProvider.scopes[child] = struct{}{}
 	s.rootProvider.scopesMu.Unlock()
 
 	// Auto-close on context cancellation
 	go func() {
+		verifGate("W_wait", child)
 		<-ctx.Done()
+		verifGate("W_wake", child)
 		if err := child.Close(); err != nil {
 			// Context cancellation cleanup errors are expected during shutdown
 			// and cannot be meaningfully handled, so we ignore them
 			_ = err
 		}
+		verifEvent("W_exit", child)
 	}()
 
 	return child, nil
@@ -213,7 +222,9 @@ func (s *scope) CreateScope(ctx context.Context) (Scope, error) {
 
 // Close disposes the scope and all its resources
 func (s *scope) Close() error {
+	verifGate("C_cas", s)
 	if !atomic.CompareAndSwapInt32(&s.disposed, 0, 1) {
+		verifEvent("C_noop", s)
 		return nil // Already closed
 	}
 
@@ -225,6 +236,7 @@ func (s *scope) Close() error {
 	}
 
 	// Close all children first
+	verifGate("C_children", s)
 	s.childrenMu.Lock()
 	children := make([]*scope, 0, len(s.children))
 	for child := range s.children {
@@ -240,6 +252,7 @@ func (s *scope) Close() error {
 	}
 
 	// Dispose all disposable scoped instances in reverse order
+	verifGate("C_drain", s)
 	s.disposablesMu.Lock()
 	disposables := s.disposables
 	s.disposables = nil
@@ -253,6 +266,7 @@ func (s *scope) Close() error {
 
 	// Remove from parent's children
 	if s.parentScope != nil {
+		verifGate("C_unparent", s)
 		s.parentScope.childrenMu.Lock()
 		delete(s.parentScope.children, s)
 		s.parentScope.childrenMu.Unlock()
@@ -260,16 +274,19 @@ func (s *scope) Close() error {
 
 	// Remove from provider's tracking
 	if s.rootProvider != nil {
+		verifGate("C_untrack", s)
 		s.rootProvider.scopesMu.Lock()
 		delete(s.rootProvider.scopes, s)
 		s.rootProvider.scopesMu.Unlock()
 	}
 
 	// Clear instances
+	verifGate("C_clear", s)
 	s.instancesMu.Lock()
 	s.instances = nil
 	s.instancesMu.Unlock()
 
+	verifEvent("C_ret", s)
 	if len(errs) > 0 {
 		return &DisposalError{
 			Context: "scope",
@@ -297,12 +314,14 @@ func (s *scope) setInstance(descriptor *Descriptor, key instanceKey, instance an
 	case Singleton:
 		s.rootProvider.setSingleton(key, instance)
 	case Scoped:
+		verifGate("R_store", s)
 		s.instancesMu.Lock()
 		s.instances[key] = instance
 		s.instancesMu.Unlock()
 		fallthrough
 	case Transient:
 		if d, ok := instance.(Disposable); ok {
+			verifGate("R_track", s)
 			s.disposablesMu.Lock()
 			s.disposables = append(s.disposables, d)
 			s.disposablesMu.Unlock()
@@ -360,6 +379,7 @@ func (s *scope) resolve(key instanceKey, descriptor *Descriptor) (any, error) {
 
 	case Scoped:
 		// Check for circular dependency only when creating new instance
+		verifGate("R_lookup", s)
 		if instance, ok := s.getInstance(key); ok {
 			return instance, nil
 		}
